@@ -1,3 +1,421 @@
-import Kurbo.Kernel
+import Proofs.Lemmas.C04Real
+/-! C04 – stroke outline, for POLYLINE sources (every element `MoveTo` / `LineTo` / `ClosePath`), about the hand-written model
+    `Kurbo/Stroke.lean` of `stroke_undashed` (`do_join`, `do_line`, `finish`, `finish_closed`, caps, `extend_reversed`).
+
+    PROVED, part A (any `[Scalar K]`, no arithmetic law; holds for `Float` too):
+    * `c04_stroke_polyline_total` – on a polyline the model never answers `.panic` (Rust `unwrap`/`unreachable!`) nor `.notModelled`.
+    * `c04_extendReversed_spec`, `c04_extendReversed_spec_lines`, `c04_extendReversed_ends_at_start` – what `extend_reversed` returns.
+    * `c04_finish_one_contour`, `c04_finish_closed_two_contours`, `c04_stroke_contours_closed`, `c04_stroke_contours_round_start` –
+      the output is a concatenation of contours `MoveTo, (LineTo|CurveTo)*, ClosePath`; with a round START cap the crate emits no
+      `ClosePath` for an open sub-path and that contour ends with the `CurveTo`s of `round_cap start_pt start_norm` instead.
+    * `c04_stroke_output_empty_iff` – the output is empty iff no `LineTo`/`ClosePath` moves the current point.
+    PROVED, part B (lawful ordered field; `C04HypotLaw`: `hypot x y ≥ 0`, `hypot x y · hypot x y = x·x + y·y`, inhabited by ℝ):
+    * `c04_norm_spec`, `c04_do_line_offsets`, `c04_do_join_start` – the offset vector is orthogonal to the tangent, of length w/2,
+      on the positive side; the two points appended by `do_line`.
+    * `c04_bevel_within` – the bevel segment stays within w/2 of the join point.
+    * `c04_miter_distance`, `c04_miter_within`, `c04_do_join_miter` – the miter point lies on both offset lines, at squared
+      distance `2·(w/2)²·h/(h + dot)`; when the model's miter test passes it is within `w/2 · miter_limit`.
+    * `c04_square_cap_within` – corners of the square cap at squared distance `2·|norm|²`, the third point at `|norm|²`.
+    * `c04_inner_pivot_on_path`, `c04_do_join_bevel` – the inner-join pivot is the join point itself, on the side opposite to the
+      miter point.
+    * `c04_polyline_outline_vertices_within`, `…_moveTo`, `c04_style_bound` (stretch goal) – bevel/miter joins, butt/square caps:
+      the outline of a polyline has only `MoveTo`/`LineTo`/`ClosePath` elements and every VERTEX of it is within the (squared)
+      style bound `(w/2)² · (2 if a cap is square) · (miter_limit² if mitered)` of a vertex of the source.
+
+    NOT PROVED:
+    * the coverage claims of C04 (every point closer than w/2 to the path has non-zero winding number; no point farther than the
+      style bound is covered): only the VERTICES of the outline (and the points of a single bevel edge) are bounded here; nothing
+      about the points of the other edges (offset, miter and cap edges), nothing about winding numbers.
+    * anything about `QuadTo`/`CurveTo` sources (`do_cubic`, curve fitting: not modelled), and about the geometry of round
+      joins/caps (the `CurveTo`s of `roundJoin`/`roundCap` are treated as opaque; in particular it is NOT proved that a contour
+      ending with a round start cap returns to its `MoveTo` point).
+    * that `Float` arithmetic satisfies part B (it does not exactly; part B is about exact arithmetic).
+    Only property theorems live here (helper lemmas: `Proofs/Lemmas/C04*.lean`). -/
+set_option linter.unusedSectionVars false
+set_option linter.unusedVariables false
 namespace Kurbo
+
+/-! ## Part A: structure (any scalar) -/
+section structure_
+variable {K : Type} [Scalar K]
+
+/-- **Totality on polylines.** No Rust panic (`unwrap` of a missing end point, `unreachable!` in `extend_reversed`) is
+    reachable, and the model covers every polyline. -/
+theorem c04_stroke_polyline_total (els : List (PathEl K)) (style : StrokeStyle K) (tolerance : K)
+    (hp : ∀ e ∈ els, c04_isPoly e = true) : ∃ out, strokeUndashed els style tolerance = .ok out := by
+  obtain ⟨out, h, _⟩ := c04_strokeUndashed_summary els style tolerance hp
+  exact ⟨out, h⟩
+example : ∀ e ∈ ([.MoveTo ⟨0, 0⟩, .LineTo ⟨4, 0⟩, .LineTo ⟨4, 3⟩, .ClosePath] : List (PathEl Rat)), c04_isPoly e = true := by
+  decide
+
+/-- **`extend_reversed`, general.** On `MoveTo` followed by `LineTo`/`CurveTo` elements it succeeds; the result is, in reverse
+    order, each element drawn back to the end point of its predecessor (`c04_revEl`: `LineTo _ ↦ LineTo e`,
+    `CurveTo p1 p2 _ ↦ CurveTo p2 p1 e`); it has one element less than the input and consists of `LineTo`/`CurveTo` only. -/
+theorem c04_extendReversed_spec (p : Point K) (t : List (PathEl K)) (ht : ∀ e ∈ t, c04_isSeg e = true) :
+    extendReversed (.MoveTo p :: t) = some ((List.zipWith c04_revEl (.MoveTo p :: t) t).reverse) ∧
+    ((List.zipWith c04_revEl (.MoveTo p :: t) t).reverse).length = t.length ∧
+    ∀ e ∈ (List.zipWith c04_revEl (.MoveTo p :: t) t).reverse, c04_isSeg e = true := by
+  have hl : c04_PathOK (PathEl.MoveTo p :: t) := ⟨p, t, rfl, ht⟩
+  refine ⟨c04_extendReversed_PathOK hl, ?_, c04_Segs_reverse (c04_zipWith_revEl_segs _ _ ht)⟩
+  simp only [List.length_reverse, List.length_zipWith, List.length_cons]
+  omega
+example : ∀ e ∈ ([.LineTo ⟨1, 0⟩, .CurveTo ⟨1, 1⟩ ⟨2, 1⟩ ⟨2, 2⟩] : List (PathEl Rat)), c04_isSeg e = true := by decide
+example : extendReversed ([.MoveTo ⟨0, 0⟩, .LineTo ⟨1, 0⟩, .CurveTo ⟨1, 1⟩ ⟨2, 1⟩ ⟨2, 2⟩] : List (PathEl Rat))
+    = some [.CurveTo ⟨2, 1⟩ ⟨1, 1⟩ ⟨1, 0⟩, .LineTo ⟨0, 0⟩] := by decide
+
+/-- **`extend_reversed` on a polyline:** `MoveTo p, LineTo q₁ … LineTo qₙ ↦ LineTo qₙ₋₁ … LineTo q₁, LineTo p`. -/
+theorem c04_extendReversed_spec_lines (p : Point K) (pts : List (Point K)) :
+    extendReversed (.MoveTo p :: pts.map .LineTo) = some (((p :: pts).dropLast.reverse).map .LineTo) :=
+  c04_extendReversed_lines p pts
+
+/-- the reversed path ends at the start point of the path (so the start cap / `ClosePath` starts from there) -/
+theorem c04_extendReversed_ends_at_start (p : Point K) (e : PathEl K) (t : List (PathEl K))
+    (ht : ∀ x ∈ e :: t, c04_isSeg x = true) :
+    ∃ r last, extendReversed (.MoveTo p :: e :: t) = some (r ++ [last]) ∧ last.end_point = some p := by
+  obtain ⟨r, h1, h2⟩ := c04_extendReversed_returns (p := p) ht
+  exact ⟨r, _, h1, h2⟩
+
+/-- **`finish` emits one contour.** Under the context invariant (`C04Inv`: forward and backward path both empty, or both
+    `MoveTo` followed by `LineTo`/`CurveTo` only – kept by every step on a polyline, `c04_I_step`) and with a sub-path in
+    progress, `finish` appends exactly one contour: closed (`MoveTo, (LineTo|CurveTo)*, ClosePath`) when the start cap is
+    butt or square; with a round start cap: `MoveTo q`, drawing elements, then the elements of `round_cap start_pt start_norm`,
+    where `q = start_pt - start_norm` if point equality is sound. -/
+theorem c04_finish_one_contour (style : StrokeStyle K) (c : StrokeCtx K) (h : C04Inv c) (hne : c.forward_path ≠ []) :
+    ∃ x, c.finish style = some { c with output := c.output ++ x, forward_path := [], backward_path := [] } ∧
+      (style.start_cap ≠ 2 → c04_ClosedContour x) ∧
+      (style.start_cap = 2 → ∃ q mid, x = .MoveTo q :: (mid ++ roundCap c.start_pt c.start_norm) ∧
+        (∀ e ∈ mid, c04_isSeg e = true) ∧ (c04_PeqSound K → q = c.start_pt - c.start_norm)) := by
+  obtain ⟨hf, hb⟩ := h.ok_of_ne hne
+  obtain ⟨rp, hrp⟩ := c04_lastEndPoint_PathOK hb
+  obtain ⟨rev, hrev, hsegs, _⟩ := c04_extendReversed_segs hb
+  obtain ⟨q, t, e0, ht⟩ := hf
+  have hmid : c04_Segs (t ++ c04_endCap style c.last_pt rp ++ rev) :=
+    c04_Segs_append (c04_Segs_append ht (c04_endCap_segs _ _ _)) hsegs
+  refine ⟨c.forward_path ++ c04_endCap style c.last_pt rp ++ rev ++ c04_startCap style c.start_pt c.start_norm, ?_, ?_, ?_⟩
+  · rw [c04_finish_eq c style hne hrp hrev]
+    simp only [List.append_assoc]
+  · intro h2
+    obtain ⟨m, hm, _, em⟩ := c04_startCap_closed style c.start_pt c.start_norm h2
+    refine ⟨q, (t ++ c04_endCap style c.last_pt rp ++ rev) ++ m, ?_, c04_Segs_append hmid hm⟩
+    rw [em, e0]
+    simp only [List.cons_append, List.append_assoc]
+  · intro h2
+    refine ⟨q, _, ?_, hmid, fun hs => h.head_f hs q t e0⟩
+    rw [c04_startCap_round style _ _ h2, e0]
+    simp only [List.cons_append, List.append_assoc]
+
+/-- **`finish_closed` emits two closed contours** (whatever the caps), and resets the paths. -/
+theorem c04_finish_closed_two_contours (style : StrokeStyle K) (c : StrokeCtx K) (h : C04Inv c) (hne : c.forward_path ≠ []) :
+    ∃ x1 x2 c', c04_ClosedContour x1 ∧ c04_ClosedContour x2 ∧ c.finish_closed style = some c' ∧
+      c'.output = c.output ++ (x1 ++ x2) ∧ c'.forward_path = [] ∧ c'.backward_path = [] :=
+  let ⟨x1, x2, c', h1, h2, h3, h4, h5, h6, _⟩ := c04_finish_closed_spec style c h hne
+  ⟨x1, x2, c', h1, h2, h3, h4, h5, h6⟩
+/-- the invariant with a sub-path in progress is satisfiable: the context after `MoveTo (0,0), LineTo (4,0)` -/
+example : ∃ c : StrokeCtx Rat, C04Inv c ∧ c.forward_path ≠ [] := by
+  let c0 : StrokeCtx Rat :=
+    { start_pt := ⟨0, 0⟩, start_norm := ⟨0, 0⟩, start_tan := ⟨0, 0⟩, last_pt := ⟨0, 0⟩, last_tan := ⟨0, 0⟩, join_thresh := 1 }
+  have h0 : C04Inv c0 :=
+    ⟨Or.inl ⟨rfl, rfl⟩, fun _ _ => rfl, fun _ q t h => (nomatch h), fun _ q t h => (nomatch h)⟩
+  have := c04_stepLine_inv ⟨2, 0, 4, 0, 0⟩ c0 ⟨4, 0⟩ h0
+  exact ⟨_, this.1, this.2.1⟩
+
+/-- **Contours of the outline, butt or square start cap.** The output of a polyline source is a concatenation of closed
+    contours: each starts with `MoveTo`, contains no other `MoveTo`, only `LineTo`/`CurveTo` in between, and ends with its only
+    `ClosePath`. -/
+theorem c04_stroke_contours_closed (els : List (PathEl K)) (style : StrokeStyle K) (tolerance : K)
+    (hp : ∀ e ∈ els, c04_isPoly e = true) (hcap : style.start_cap ≠ 2) :
+    ∃ cs : List (List (PathEl K)), strokeUndashed els style tolerance = .ok cs.flatten ∧
+      ∀ x ∈ cs, ∃ p mid, x = .MoveTo p :: (mid ++ [.ClosePath]) ∧ ∀ e ∈ mid, c04_isSeg e = true := by
+  obtain ⟨out, h, ⟨cs, rfl, hg⟩, _⟩ := c04_strokeUndashed_summary els style tolerance hp
+  refine ⟨cs, h, fun x hx => ?_⟩
+  rcases hg x hx with hc | ⟨h2, _⟩
+  · exact hc
+  · exact absurd h2 hcap
+example : (⟨2, 1, 4, 0, 1⟩ : StrokeStyle Rat).start_cap ≠ 2 := by decide
+
+/-- **Contours of the outline, any caps.** Every contour is closed as above, or (round start cap only; the contour of an open
+    sub-path) it is `MoveTo q`, `LineTo`/`CurveTo` elements, then the `CurveTo`s of `round_cap s n` with no `ClosePath`; if point
+    equality is sound (every lawful scalar; not `Float`, where `0.0 == -0.0`) then `q = s - n`.
+    NOT proved: that `round_cap s n` ends at `s - n` (geometry of the arc). -/
+theorem c04_stroke_contours_round_start (els : List (PathEl K)) (style : StrokeStyle K) (tolerance : K)
+    (hp : ∀ e ∈ els, c04_isPoly e = true) :
+    ∃ cs : List (List (PathEl K)), strokeUndashed els style tolerance = .ok cs.flatten ∧
+      ∀ x ∈ cs, (∃ p mid, x = .MoveTo p :: (mid ++ [.ClosePath]) ∧ ∀ e ∈ mid, c04_isSeg e = true) ∨
+        (style.start_cap = 2 ∧ ∃ q s n mid, x = .MoveTo q :: (mid ++ roundCap s n) ∧ (∀ e ∈ mid, c04_isSeg e = true) ∧
+          (∀ e ∈ roundCap s n, c04_isCurve e = true) ∧ (c04_PeqSound K → q = s - n)) := by
+  obtain ⟨out, h, ⟨cs, rfl, hg⟩, _⟩ := c04_strokeUndashed_summary els style tolerance hp
+  refine ⟨cs, h, fun x hx => ?_⟩
+  rcases hg x hx with hc | ⟨h2, q, s, n, mid, e, hm, hq⟩
+  · exact Or.inl hc
+  · exact Or.inr ⟨h2, q, s, n, mid, e, hm, c04_roundCap_curves s n, hq⟩
+
+/-- **Empty output.** The output is empty iff the source has no non-degenerate segment: `c04_hasSegment` follows the
+    stroker's current point and start point through the source and reports whether some `LineTo` target differs from the
+    current point or some `ClosePath` finds the current point away from the start point (the crate's `!=` on points). -/
+theorem c04_stroke_output_empty_iff (els : List (PathEl K)) (style : StrokeStyle K) (tolerance : K)
+    (hp : ∀ e ∈ els, c04_isPoly e = true) :
+    strokeUndashed els style tolerance = .ok [] ↔ c04_hasSegment els = false := by
+  obtain ⟨out, h, _, hiff⟩ := c04_strokeUndashed_summary els style tolerance hp
+  rw [h]
+  constructor
+  · intro e
+    injection e with e
+    exact hiff.1 e
+  · intro e
+    rw [hiff.2 e]
+example : c04_hasSegment ([.MoveTo ⟨1, 1⟩, .LineTo ⟨1, 1⟩, .ClosePath] : List (PathEl Rat)) = false := by decide
+example : c04_hasSegment ([.MoveTo ⟨1, 1⟩, .LineTo ⟨1, 2⟩] : List (PathEl Rat)) = true := by decide
+
+end structure_
+
+/-! ## Part B: geometry (lawful ordered field, lawful `hypot`) -/
+section geometry
+variable {K : Type} [Field K] [LinearOrder K] [IsStrictOrderedRing K] [FloorRing K] [Scalar K] [LawfulScalar K]
+  [C04HypotLaw K]
+
+/-- the hypotheses on the scalar are satisfiable (ℝ with `hypot x y = √(x²+y²)`) -/
+example : ∃ (_ : Scalar ℝ) (_ : LawfulScalar ℝ), C04HypotLaw ℝ := c04_exReal
+
+/-- **The offset vector.** `c04_norm w t = (0.5·w / t.hypot()) · (−t.y, t.x)` is the vector `norm` computed by `do_join` and
+    `do_line` (`c04_do_line_offsets`, `c04_do_join_start`, `c04_do_join_nonempty`). For a non-zero tangent it is orthogonal to
+    the tangent, has squared length `(w/2)²`, and `tangent × norm = (w/2)·|tangent|` (positive side for `w > 0`). -/
+theorem c04_norm_spec (w : K) (t : Vec2 K) (ht : t.x ≠ 0 ∨ t.y ≠ 0) :
+    (c04_norm w t).dot t = 0 ∧ (c04_norm w t).hypot2 = (w / 2) ^ 2 ∧ t.cross (c04_norm w t) = w / 2 * t.hypot ∧
+    0 < t.hypot :=
+  ⟨c04_norm_dot w t, c04_norm_hypot2 w t ht, c04_norm_cross w t ht, c04_hypot_pos _ _ ht⟩
+example : ((⟨4, 3⟩ : Point Rat) - (⟨4, 0⟩ : Point Rat)).x ≠ 0 ∨ ((⟨4, 3⟩ : Point Rat) - (⟨4, 0⟩ : Point Rat)).y ≠ 0 := by
+  right; decide +kernel
+
+/-- the tangents the element loop passes to `do_join`/`do_line` are non-zero (`p1 != p0` in the crate) -/
+theorem c04_loop_tangent_ne_zero (p0 p1 : Point K) (h : p1.peq p0 = false) : (p1 - p0).x ≠ 0 ∨ (p1 - p0).y ≠ 0 :=
+  c04_sub_ne_zero (c04_peq_false_ne h)
+example : (⟨4, 3⟩ : Point Rat).peq ⟨4, 0⟩ = false := by decide
+
+/-- **`do_line`.** It appends `p1 − norm` to the forward path and `p1 + norm` to the backward path, `norm = c04_norm w tangent`.
+    Both points are at distance exactly `w/2` from `p1`, on opposite sides (`+norm` on the positive side of the tangent), and
+    the edge from the previous offset point `p0 ∓ norm` (same `norm`) is the source segment `p1 − p0` translated. -/
+theorem c04_do_line_offsets (c : StrokeCtx K) (style : StrokeStyle K) (t : Vec2 K) (p1 : Point K) (ht : t.x ≠ 0 ∨ t.y ≠ 0) :
+    let n := c04_norm style.width t
+    (c.do_line style t p1).forward_path = c.forward_path ++ [.LineTo (p1 - n)] ∧
+    (c.do_line style t p1).backward_path = c.backward_path ++ [.LineTo (p1 + n)] ∧
+    (c.do_line style t p1).last_pt = p1 ∧
+    (p1 - n).distance_squared p1 = (style.width / 2) ^ 2 ∧ (p1 + n).distance_squared p1 = (style.width / 2) ^ 2 ∧
+    (p1 + n) - p1 = n ∧ (p1 - n) - p1 = -n ∧ t.cross n = style.width / 2 * t.hypot ∧
+    ∀ p0 : Point K, (p1 - n) - (p0 - n) = p1 - p0 ∧ (p1 + n) - (p0 + n) = p1 - p0 := by
+  intro n
+  obtain ⟨h1, h2, h3⟩ := c04_offsets_opposite p1 n
+  obtain ⟨d1, d2⟩ := c04_offset_dist p1 n
+  exact ⟨rfl, rfl, rfl, d1.trans (c04_norm_hypot2 _ t ht), d2.trans (c04_norm_hypot2 _ t ht), h1, h2,
+    c04_norm_cross _ t ht, h3⟩
+
+/-- **`do_join` at the start of a sub-path:** the two paths start at `last_pt ∓ norm`; `start_norm` is that `norm`. -/
+theorem c04_do_join_start (c : StrokeCtx K) (style : StrokeStyle K) (t : Vec2 K) (he : c.forward_path = [])
+    (hb : c.backward_path = []) :
+    (c.do_join style t).forward_path = [.MoveTo (c.last_pt - c04_norm style.width t)] ∧
+    (c.do_join style t).backward_path = [.MoveTo (c.last_pt + c04_norm style.width t)] ∧
+    (c.do_join style t).start_norm = c04_norm style.width t ∧ (c.do_join style t).start_tan = t := by
+  rw [c04_do_join_empty c style t he]
+  simp only [hb, List.nil_append, and_self]
+
+/-- **Bevel.** Every point of the segment between two points at distance `r` from `p0` (such as `p0 − last_norm` and
+    `p0 − norm`, `c04_do_join_bevel`) is within `r` of `p0`. -/
+theorem c04_bevel_within (p0 : Point K) (a b : Vec2 K) (rr s : K) (ha : a.hypot2 = rr) (hb : b.hypot2 = rr)
+    (h0 : 0 ≤ s) (h1 : s ≤ 1) : ((p0 - a).lerp (p0 - b) s).distance_squared p0 ≤ rr :=
+  c04_bevel_chord p0 a b rr s ha hb h0 h1
+
+/-- the join-skip test of `do_join`, in ordinary arithmetic: a join is made unless the turn is forward and tiny -/
+theorem c04_join_test_iff (c : StrokeCtx K) (tan0 : Vec2 K) :
+    c04_joinTest c tan0 = true ↔
+      (c.last_tan.dot tan0 ≤ 0 ∨
+        Scalar.hypot (c.last_tan.cross tan0) (c.last_tan.dot tan0) * c.join_thresh ≤ |c.last_tan.cross tan0|) :=
+  c04_joinTest_iff c tan0
+
+/-- **The inner-join pivot is the join point itself**, appended to the backward path for a left turn (`cross > 0`), to the
+    forward path for a right turn (`cross < 0`), nowhere for `cross = 0`. -/
+theorem c04_inner_pivot_on_path (c : StrokeCtx K) (p0 : Point K) (cross : K) :
+    (0 < cross → c.inner_join_pivot p0 cross = { c with backward_path := c.backward_path ++ [.LineTo p0] }) ∧
+    (cross < 0 → c.inner_join_pivot p0 cross = { c with forward_path := c.forward_path ++ [.LineTo p0] }) ∧
+    (cross = 0 → c.inner_join_pivot p0 cross = c) := by
+  refine ⟨fun h => ?_, fun h => ?_, fun h => ?_⟩
+  · rw [c04_inner_join_pivot_eq, (c04_pivot_pos p0 cross h).1, (c04_pivot_pos p0 cross h).2]
+    cases c; simp [c04_ext]
+  · rw [c04_inner_join_pivot_eq, (c04_pivot_neg p0 cross h).1, (c04_pivot_neg p0 cross h).2]
+    cases c; simp [c04_ext]
+  · subst h
+    rw [c04_inner_join_pivot_eq, (c04_pivot_zero p0).1, (c04_pivot_zero p0).2, c04_ext_nil]
+
+/-- **Bevel join** (`style.join = 0`, sub-path in progress, join not skipped): the outer side gets the new offset point (the
+    bevel edge from the previous one), the inner side goes through the join point `last_pt` first. -/
+theorem c04_do_join_bevel (c : StrokeCtx K) (style : StrokeStyle K) (tan0 : Vec2 K) (hne : c.forward_path ≠ [])
+    (hj : style.join = 0) (ht : c04_joinTest c tan0 = true) :
+    let n := c04_norm style.width tan0
+    (0 < c.last_tan.cross tan0 → c.do_join style tan0 =
+      { c with forward_path := c.forward_path ++ [.LineTo (c.last_pt - n)],
+               backward_path := c.backward_path ++ [.LineTo c.last_pt, .LineTo (c.last_pt + n)] }) ∧
+    (c.last_tan.cross tan0 < 0 → c.do_join style tan0 =
+      { c with forward_path := c.forward_path ++ [.LineTo c.last_pt, .LineTo (c.last_pt - n)],
+               backward_path := c.backward_path ++ [.LineTo (c.last_pt + n)] }) ∧
+    (c.last_tan.cross tan0 = 0 → c.do_join style tan0 =
+      { c with forward_path := c.forward_path ++ [.LineTo (c.last_pt - n)],
+               backward_path := c.backward_path ++ [.LineTo (c.last_pt + n)] }) := by
+  intro n
+  rw [c04_do_join_nonempty c style tan0 hne, c04_joinApp_bevel c style tan0 hj ht]
+  refine ⟨fun h => ?_, fun h => ?_, fun h => ?_⟩
+  · rw [(c04_pivot_pos _ _ h).1, (c04_pivot_pos _ _ h).2]; rfl
+  · rw [(c04_pivot_neg _ _ h).1, (c04_pivot_neg _ _ h).2]; rfl
+  · rw [h, (c04_pivot_zero _).1, (c04_pivot_zero _).2]; rfl
+
+/-- **Miter join** (`style.join = 1`, sub-path in progress, join not skipped): as the bevel join, but the outer side first gets
+    the miter point if the miter-limit test `c04_miterTest` (`2·hypot < (hypot + dot)·limit²`, `c04_miter_test_iff`) passes;
+    the pivot is on the opposite (inner) side. -/
+theorem c04_do_join_miter (c : StrokeCtx K) (style : StrokeStyle K) (tan0 : Vec2 K) (hne : c.forward_path ≠ [])
+    (hj : style.join = 1) (ht : c04_joinTest c tan0 = true) :
+    let n := c04_norm style.width tan0
+    (0 < c.last_tan.cross tan0 → c.do_join style tan0 =
+      { c with forward_path := c.forward_path ++
+                 ((if c04_miterTest c style tan0 then [.LineTo (c04_miterPtF style.width c.last_pt c.last_tan tan0)] else [])
+                   ++ [.LineTo (c.last_pt - n)]),
+               backward_path := c.backward_path ++ [.LineTo c.last_pt, .LineTo (c.last_pt + n)] }) ∧
+    (c.last_tan.cross tan0 < 0 → c.do_join style tan0 =
+      { c with forward_path := c.forward_path ++ [.LineTo c.last_pt, .LineTo (c.last_pt - n)],
+               backward_path := c.backward_path ++
+                 ((if c04_miterTest c style tan0 then [.LineTo (c04_miterPtB style.width c.last_pt c.last_tan tan0)] else [])
+                   ++ [.LineTo (c.last_pt + n)]) }) ∧
+    (c.last_tan.cross tan0 = 0 → c.do_join style tan0 =
+      { c with forward_path := c.forward_path ++ [.LineTo (c.last_pt - n)],
+               backward_path := c.backward_path ++ [.LineTo (c.last_pt + n)] }) := by
+  intro n
+  rw [c04_do_join_nonempty c style tan0 hne, c04_joinApp_miter c style tan0 hj ht]
+  refine ⟨fun h => ?_, fun h => ?_, fun h => ?_⟩
+  · rw [(c04_pivot_pos _ _ h).1, (c04_pivot_pos _ _ h).2, (c04_miterFB_pos c style tan0 h).1, (c04_miterFB_pos c style tan0 h).2]
+    rfl
+  · rw [(c04_pivot_neg _ _ h).1, (c04_pivot_neg _ _ h).2, (c04_miterFB_neg c style tan0 h).1, (c04_miterFB_neg c style tan0 h).2]
+    rfl
+  · rw [(c04_miterFB_zero c style tan0 h).1, (c04_miterFB_zero c style tan0 h).2, h, (c04_pivot_zero _).1, (c04_pivot_zero _).2]
+    rfl
+/-- a left turn with a join: after `(0,0) → (4,0)`, going on to `(4,3)`: cross = 12 > 0, dot = 0 -/
+example : (⟨4, 0⟩ : Vec2 Rat).cross ⟨0, 3⟩ = 12 ∧ (⟨4, 0⟩ : Vec2 Rat).dot ⟨0, 3⟩ ≤ 0 := by decide +kernel
+
+/-- the miter-limit test of `do_join`, in ordinary arithmetic -/
+theorem c04_miter_test_iff (c : StrokeCtx K) (style : StrokeStyle K) (tan0 : Vec2 K) :
+    c04_miterTest c style tan0 = true ↔
+      2 * Scalar.hypot (c.last_tan.cross tan0) (c.last_tan.dot tan0)
+        < (Scalar.hypot (c.last_tan.cross tan0) (c.last_tan.dot tan0) + c.last_tan.dot tan0) * style.miter_limit ^ 2 :=
+  c04_miterTest_iff c style tan0
+
+/-- **The miter point.** For non-zero tangents `ab`, `cd` that are not parallel, the miter points the model computes
+    (`c04_miterPtF`: forward side, used when `cross > 0`; `c04_miterPtB`: backward side, `cross < 0`) lie on both offset lines
+    (through `p0 ∓ norm(cd)` along `cd`, through `p0 ∓ norm(ab)` along `ab`), and their squared distance `m²` from the join
+    point satisfies `m² · (h + ab·cd) = 2·(w/2)²·h` with `h = hypot(ab×cd, ab·cd) = |ab|·|cd|`. -/
+theorem c04_miter_distance (w : K) (p0 : Point K) (ab cd : Vec2 K) (hab : ab.x ≠ 0 ∨ ab.y ≠ 0) (hcd : cd.x ≠ 0 ∨ cd.y ≠ 0)
+    (hX : ab.cross cd ≠ 0) :
+    ((c04_miterPtF w p0 ab cd).distance_squared p0 * (Scalar.hypot (ab.cross cd) (ab.dot cd) + ab.dot cd)
+        = 2 * (w / 2) ^ 2 * Scalar.hypot (ab.cross cd) (ab.dot cd) ∧
+      (c04_miterPtF w p0 ab cd - (p0 - c04_norm w cd)).cross cd = 0 ∧
+      (c04_miterPtF w p0 ab cd - (p0 - c04_norm w ab)).cross ab = 0) ∧
+    ((c04_miterPtB w p0 ab cd).distance_squared p0 * (Scalar.hypot (ab.cross cd) (ab.dot cd) + ab.dot cd)
+        = 2 * (w / 2) ^ 2 * Scalar.hypot (ab.cross cd) (ab.dot cd) ∧
+      (c04_miterPtB w p0 ab cd - (p0 + c04_norm w cd)).cross cd = 0 ∧
+      (c04_miterPtB w p0 ab cd - (p0 + c04_norm w ab)).cross ab = 0) ∧
+    Scalar.hypot (ab.cross cd) (ab.dot cd) = ab.hypot * cd.hypot :=
+  ⟨c04_miterPtF_spec w p0 ab cd hab hcd hX, c04_miterPtB_spec w p0 ab cd hab hcd hX, by
+    simp only [Vec2.cross, Vec2.dot, Vec2.hypot, scalar_norm]; exact c04_hypot_cross_dot _ _ _ _⟩
+example : ((⟨4, 0⟩ : Vec2 Rat).x ≠ 0 ∨ (⟨4, 0⟩ : Vec2 Rat).y ≠ 0) ∧ ((⟨0, 3⟩ : Vec2 Rat).x ≠ 0 ∨ (⟨0, 3⟩ : Vec2 Rat).y ≠ 0) ∧
+    (⟨4, 0⟩ : Vec2 Rat).cross ⟨0, 3⟩ ≠ 0 := by decide +kernel
+
+/-- **Miter limit.** A miter point emitted by the model (the test passed) is within `w/2 · miter_limit` of the join point. -/
+theorem c04_miter_within (c : StrokeCtx K) (style : StrokeStyle K) (tan0 : Vec2 K)
+    (hab : c.last_tan.x ≠ 0 ∨ c.last_tan.y ≠ 0) (hcd : tan0.x ≠ 0 ∨ tan0.y ≠ 0) (ht : c04_miterTest c style tan0 = true) :
+    (0 < c.last_tan.cross tan0 →
+      (c04_miterPtF style.width c.last_pt c.last_tan tan0).distance_squared c.last_pt ≤ (style.width / 2 * style.miter_limit) ^ 2) ∧
+    (c.last_tan.cross tan0 < 0 →
+      (c04_miterPtB style.width c.last_pt c.last_tan tan0).distance_squared c.last_pt ≤ (style.width / 2 * style.miter_limit) ^ 2) :=
+  Kurbo.c04_miter_within_ctx c style tan0 hab hcd ht
+
+/-- **Square cap.** `square_cap close centre norm` is `centre + norm + rot90(norm)`, `centre − norm + rot90(norm)`, then
+    `ClosePath` (start cap) or `centre − norm` (end cap); the two corners are at squared distance `2·|norm|²` from the centre,
+    the third point at `|norm|²`. -/
+theorem c04_square_cap_within (close : Bool) (s : Point K) (n : Vec2 K) :
+    ∃ q1 q2 q3 : Point K,
+      squareCap close s n = [.LineTo q1, .LineTo q2] ++ (if close then [.ClosePath] else [.LineTo q3]) ∧
+      q1.distance_squared s = 2 * n.hypot2 ∧ q2.distance_squared s = 2 * n.hypot2 ∧ q3.distance_squared s = n.hypot2 ∧
+      q3 = s - n := by
+  refine ⟨_, _, _, c04_squareCap_eq close s n, (c04_squareCap_dist s n).1, (c04_squareCap_dist s n).2.1,
+    (c04_squareCap_dist s n).2.2, ?_⟩
+  cases s; cases n; kring
+
+/-- **Vertices of the outline (stretch goal).** Bevel or miter joins, butt or square caps, `R2` any squared bound with
+    `(w/2)² ≤ R2`, `2·(w/2)² ≤ R2` if a cap is square, `(w/2·miter_limit)² ≤ R2` if joins are mitered. Then the outline of a
+    polyline consists of `MoveTo`/`LineTo`/`ClosePath` only and every vertex is within `R2` (squared distance) of a vertex of
+    the source – or of the origin, which is the stroker's current point if the source does not start with `MoveTo`
+    (`c04_polyline_outline_vertices_within_moveTo` drops the origin).
+    NOT proved: the same for the points of the edges between the vertices; round joins and caps. -/
+theorem c04_polyline_outline_vertices_within (els : List (PathEl K)) (style : StrokeStyle K) (tolerance : K)
+    (hp : ∀ e ∈ els, c04_isPoly e = true) (R2 : K)
+    (hjoin : style.join = 0 ∨ style.join = 1) (hsc : style.start_cap ≠ 2) (hec : style.end_cap ≠ 2)
+    (hhalf : (style.width / 2) ^ 2 ≤ R2)
+    (hsq : (style.start_cap ≠ 0 ∨ style.end_cap ≠ 0) → 2 * (style.width / 2) ^ 2 ≤ R2)
+    (hmi : style.join = 1 → (style.width / 2 * style.miter_limit) ^ 2 ≤ R2) :
+    ∃ out, strokeUndashed els style tolerance = .ok out ∧
+      ∀ e ∈ out, e = .ClosePath ∨ ∃ q, (e = .MoveTo q ∨ e = .LineTo q) ∧
+        ∃ p ∈ (⟨0, 0⟩ : Point K) :: els.filterMap PathEl.end_point, q.distance_squared p ≤ R2 := by
+  obtain ⟨out, h, hw⟩ := c04_strokeUndashed_allW ⟨hjoin, hsc, hec, hhalf, hsq, hmi⟩ els tolerance hp
+  exact ⟨out, h, fun e he => c04_elW_iff (hw e he)⟩
+/-- width 2, miter joins with limit 4, square start cap, butt end cap: `R2 = 16` is a bound -/
+example : let style : StrokeStyle Rat := ⟨2, 1, 4, 1, 0⟩
+    (style.join = 0 ∨ style.join = 1) ∧ style.start_cap ≠ 2 ∧ style.end_cap ≠ 2 ∧ (style.width / 2) ^ 2 ≤ 16 ∧
+    ((style.start_cap ≠ 0 ∨ style.end_cap ≠ 0) → 2 * (style.width / 2) ^ 2 ≤ 16) ∧
+    (style.join = 1 → (style.width / 2 * style.miter_limit) ^ 2 ≤ 16) := by
+  refine ⟨Or.inr rfl, by decide, by decide, by norm_num, fun _ => by norm_num, fun _ => by norm_num⟩
+
+/-- the same for a source that starts with `MoveTo`: every vertex of the outline is near a vertex of the source -/
+theorem c04_polyline_outline_vertices_within_moveTo (p0 : Point K) (rest : List (PathEl K)) (style : StrokeStyle K)
+    (tolerance : K) (hp : ∀ e ∈ rest, c04_isPoly e = true) (R2 : K)
+    (hjoin : style.join = 0 ∨ style.join = 1) (hsc : style.start_cap ≠ 2) (hec : style.end_cap ≠ 2)
+    (hhalf : (style.width / 2) ^ 2 ≤ R2)
+    (hsq : (style.start_cap ≠ 0 ∨ style.end_cap ≠ 0) → 2 * (style.width / 2) ^ 2 ≤ R2)
+    (hmi : style.join = 1 → (style.width / 2 * style.miter_limit) ^ 2 ≤ R2) :
+    ∃ out, strokeUndashed (.MoveTo p0 :: rest) style tolerance = .ok out ∧
+      ∀ e ∈ out, e = .ClosePath ∨ ∃ q, (e = .MoveTo q ∨ e = .LineTo q) ∧
+        ∃ p ∈ (PathEl.MoveTo p0 :: rest).filterMap PathEl.end_point, q.distance_squared p ≤ R2 := by
+  obtain ⟨out, h, hw⟩ := c04_strokeUndashed_allW_moveTo ⟨hjoin, hsc, hec, hhalf, hsq, hmi⟩ p0 rest tolerance hp
+  exact ⟨out, h, fun e he => c04_elW_iff (hw e he)⟩
+
+/-- the style bound of C04, squared: `(w/2)² · (2 if a cap is square) · (miter_limit² if joins are mitered)` is such an `R2`
+    (for a miter limit of at least 1, as SVG requires; the crate's default is 4) -/
+theorem c04_style_bound (style : StrokeStyle K) (hlim : style.join = 1 → 1 ≤ style.miter_limit) :
+    let R2 := (style.width / 2) ^ 2 * (if style.start_cap = 0 ∧ style.end_cap = 0 then 1 else 2) *
+      (if style.join = 1 then style.miter_limit ^ 2 else 1)
+    (style.width / 2) ^ 2 ≤ R2 ∧ ((style.start_cap ≠ 0 ∨ style.end_cap ≠ 0) → 2 * (style.width / 2) ^ 2 ≤ R2) ∧
+    (style.join = 1 → (style.width / 2 * style.miter_limit) ^ 2 ≤ R2) := by
+  intro R2
+  have hr : 0 ≤ (style.width / 2) ^ 2 := sq_nonneg _
+  have ha : (1 : K) ≤ (if style.start_cap = 0 ∧ style.end_cap = 0 then 1 else 2) := by split <;> norm_num
+  have hb : (1 : K) ≤ (if style.join = 1 then style.miter_limit ^ 2 else 1) := by
+    split
+    · rename_i h1; have := hlim h1; nlinarith
+    · exact le_refl _
+  have hab : (style.width / 2) ^ 2 * 1 ≤ (style.width / 2) ^ 2 * (if style.start_cap = 0 ∧ style.end_cap = 0 then 1 else 2) :=
+    mul_le_mul_of_nonneg_left ha hr
+  have hpos : 0 ≤ (style.width / 2) ^ 2 * (if style.start_cap = 0 ∧ style.end_cap = 0 then (1 : K) else 2) := by
+    linarith
+  refine ⟨?_, ?_, ?_⟩
+  · have := mul_le_mul_of_nonneg_left hb hpos
+    simp only [R2]; linarith
+  · intro hcap
+    have h2 : (if style.start_cap = 0 ∧ style.end_cap = 0 then (1 : K) else 2) = 2 := by
+      rw [if_neg]; intro h; rcases hcap with h' | h'
+      · exact h' h.1
+      · exact h' h.2
+    have := mul_le_mul_of_nonneg_left hb hpos
+    simp only [R2]; rw [h2] at this ⊢; linarith
+  · intro h1
+    simp only [R2, if_pos h1]
+    have hm : 0 ≤ style.miter_limit ^ 2 := sq_nonneg _
+    have := mul_le_mul_of_nonneg_right hab hm
+    rw [mul_pow]; linarith
+example : (⟨2, 1, 4, 1, 0⟩ : StrokeStyle Rat).join = 1 → (1 : Rat) ≤ (⟨2, 1, 4, 1, 0⟩ : StrokeStyle Rat).miter_limit := by
+  intro _; norm_num
+
+end geometry
 end Kurbo
